@@ -192,6 +192,16 @@ fn verif_c06_agree() {
                 let index = (rng.next_u64() >> (32 + rng.below(32))) as u32;
                 out.push(format!("c06.agree {} g{} {index} {z} {chunks}", seed(rng), rng.below(1000)));
             }
+            // long step strings (deeply nested protocols reach 105 bytes; a single step may not contain `/`, so one long step stands in for the path): the compared gates `<g>`, `<g>x` and `<g>/sub`
+            // differ only beyond byte 40..200, across the SHA-256 block/padding boundaries of the HKDF info (55/56, 64, 119/120, 128)
+            let deep = "hybrid_aggregate_chunks1_fold00_saturating_add_select_bit00_eval_prf_malicious_protocol_mult_mask_with_p_r_f_input";
+            for len in [31usize, 40, 45, 46, 47, 53, 54, 55, 56, 57, 63, 64, 65, 96, 105, 109, 110, 111, 118, 119, 120, 128, 200] {
+                if !thorough && len % 2 == 1 && ![55, 63, 65, 105, 119].contains(&len) {
+                    continue;
+                }
+                let name: String = deep.chars().cycle().take(len).collect();
+                out.push(format!("c06.agree {} {name} {} 1 2", seed(rng), (rng.next_u64() >> 40) as u32));
+            }
             for _ in 0..(if thorough { 20 } else { 3 }) {
                 out.push(format!("c06.negotiate {}", seed(rng)));
             }
